@@ -10,7 +10,8 @@ git -C $WT reset -q --hard; git -C $WT clean -fdq
 git -C $WT checkout -q --detach $(git -C /repo rev-parse HEAD)   # seeds were made at an older HEAD; /repo may have gained fix: commits
 democmd=$(python3 -c "import json;print(json.load(open('$OUT/meta.json')).get('demo_cmd',''))" 2>/dev/null)
 echo "demo_cmd: $democmd"
-rundemo() { (cd $OUT/demo 2>/dev/null && if [ -x ./run.sh ]; then timeout 1800 ./run.sh $WT; elif ls *_test.go >/dev/null 2>&1 && [ ! -f main.go ]; then echo "test-style demo: see meta"; false; else timeout 1200 go run . ; fi) > $OUT/demo_$1.log 2>&1; echo $?; }
+RACE=""; grep -q -- "-race" $OUT/meta.json $OUT/demo/RUN.txt 2>/dev/null && RACE="-race"
+rundemo() { (cd $OUT/demo 2>/dev/null && if [ -x ./run.sh ]; then timeout 1800 ./run.sh $WT; elif ls *_test.go >/dev/null 2>&1 && [ ! -f main.go ]; then echo "test-style demo: see meta"; false; else timeout 1800 go run $RACE . ; fi) > $OUT/demo_$1.log 2>&1; echo $?; }
 r0=$(rundemo unchanged)
 git -C $WT apply -3 $OUT/patch.diff || { echo "PATCH DOES NOT APPLY"; exit 2; }
 ( cd $WT/code/go/0chain.net && go test -vet=off -count=1 $(cat /verif/tools/baseline_pkgs.txt) 2>&1 | grep -v "^ok\|no test files" | head -20 ) > $OUT/baseline_confirm.log 2>&1
